@@ -54,3 +54,5 @@ pub fn accept_none_counters() -> (u64, u64) {
     )
 }
 
+
+pub use crate::network::wire_hooks as wire;
